@@ -16,7 +16,7 @@ func init() {
 				W: map[string]int{
 					"app": 8, "ins": 6, "set": 7, "rem": 8, "pop": 1, "appN": 6, "remN": 4,
 					"mset": 12, "mrem": 8, "mpop": 1, "msetN": 5, "mremN": 3, "styp": 2, "reget": 1,
-					"commit": 9, "reopen": 3, "evict": 2, "crashchk": 6, "grow": 1, "mgrow": 1,
+					"commit": 9, "reopen": 3, "evict": 2, "crashchk": 6, "grow": 1, "mgrow": 1, "setN": 2, "mupdN": 2,
 				},
 				Roots: [][]RootSpec{
 					{{K: "arr", Addr: 1, TI: 1}},
